@@ -4,7 +4,7 @@ import ast
 from ..cfg import witness, describe_path
 from ..core import AnalysisError, u, walk_local, enclosing_stmt
 from ..lib import (construct, std_facts, facts_at, def_of, calls_of_node,
-                   copy_kind, in_subtree, stored_names)
+                   copy_kind, in_subtree, stored_names, expand_expr)
 from ..resolve import store_accesses
 from .common import scope_entry, allowed_stores, scope_who, signature_agreement
 from .c04 import isolate
@@ -90,8 +90,14 @@ def overlay(ctx):
           and any(isinstance(v, ast.Call) and prog.resolve_call(f, v) == 'config.current_scope' for v in n.ast.value.values):
         SC = u(n.ast.targets[0])
     if SC is None:
-      ctx.fail('C01.fresh', con, 'an omitted scope no longer falls back to the scope active at the time of the call', f.loc(), instance='current-scope')
-      SC = 'scope_components'
+      # no fallback inside: then every caller has to hand in a scope (the active one, or one it resolved)
+      sites = prog.call_sites_of(f.qual)
+      p1 = f.params[1] if len(f.params) > 1 else None
+      has_default = p1 is not None and any(isinstance(d, ast.Constant) and d.value is None for d in f.node.args.defaults)
+      given = bool(sites) and all(len(c.args) > 1 or any(k.arg == p1 for k in c.keywords) for _cf, c in sites)
+      ctx.check(given and not has_default, 'C01.fresh', con, 'every caller supplies the scope (the one active at the call, or one it resolved)',
+                'an omitted scope no longer falls back to the scope active at the time of the call', f.loc(), instance='current-scope')
+      SC = p1 or 'scope_components'
     else:
       ctx.hold('C01.fresh', con, 'an omitted scope falls back to current_scope() evaluated at call time', f.loc(), instance='current-scope')
     seen_inherit = False
@@ -254,8 +260,13 @@ def run(ctx):
   if not ok:
     return
   getc = w.get_node.ast.value
-  noscope = len(getc.args) <= 1 and not any(k.arg in ('scope_components',) for k in getc.keywords)
-  strict = [k for k in getc.keywords if k.arg == 'inherit_scopes']
+  scope_args = list(getc.args[1:2]) + [k.value for k in getc.keywords if k.arg in ('scope_components',)]
+  # passing the scope that is active right now is the same as passing none
+  def is_current(e):
+    e = expand_expr(facts[w.get_node.id], e)
+    return isinstance(e, ast.Call) and prog.resolve_call(f, e) == 'config.current_scope'
+  noscope = all(is_current(a) for a in scope_args)
+  strict = [k for k in getc.keywords if k.arg == 'inherit_scopes' and not (isinstance(k.value, ast.Constant) and k.value.value is True)]
   ctx.check(noscope and not strict, 'C01.fresh', con, 'no explicit scope is passed: the active scope at call time decides',
             '_get_bindings is called with an explicit scope / strict mode `%s`' % u(getc), f.loc(getc), instance='ambient-scope')
   _, acc = store_accesses(prog, 'config', ['_CONFIG'])
